@@ -1105,3 +1105,100 @@ def run(ctx) -> None:  # noqa: F811
              "dtype of the transformed array are fine")
     _result_dtype(ctx, ctx.repo)
     _inner_run_c15_r4(ctx)
+
+
+# ---- added after the seeded change C15-r8seed4: a shift reduced modulo the array size uses each axis' own length
+_inner_run_c15_r8 = run
+
+
+def _shape_axes(e: ast.AST):
+    """`<x>.shape[<constant slice>]` (through asarray/array/tuple/float wrappers) -> (x text, axes counted from the end)"""
+    for _ in range(6):
+        if isinstance(e, ast.Call) and last_attr(e) in ("asarray", "array", "tuple", "list") and e.args:
+            e = e.args[0]
+            continue
+        break
+    if not (isinstance(e, ast.Subscript) and isinstance(e.value, ast.Attribute) and e.value.attr == "shape"):
+        return None
+    s = e.slice
+    rank = 6
+    axes = list(range(-rank, 0))
+    def lit(p):
+        return None if p is None else ast.literal_eval(p)
+
+    try:
+        if isinstance(s, ast.Slice):
+            sel = axes[slice(lit(s.lower), lit(s.upper), lit(s.step))]
+        else:
+            sel = [axes[lit(s)]]
+    except (ValueError, TypeError, IndexError, SyntaxError):
+        return None
+    if any(a < -3 for a in sel):
+        return None  # depends on the rank: not a selection counted from the end
+    return norm_text(e.value.value), sel
+
+
+def _shift_periods(ctx, repo) -> int:
+    f = repo.function(FFT, "fft_shift")
+    df = DataFlow(f.node)
+    calls = [c for c in walk_no_nested(f.node) if isinstance(c, ast.Call) and call_name(c) == "fft_shift_kernel"]
+    ctx.require(len(calls) == 1 and len(calls[0].args) >= 2, f"{f.qualname}: fft_shift_kernel(positions, shape) not found")
+    call = calls[0]
+    at = df.cfg.node_of(_stmt_of(f.node, call)).idx
+    want = _shape_axes(call.args[1])
+    ctx.require(want is not None, f"{f.qualname}: the shape handed to fft_shift_kernel is not a trailing slice of a shape")
+    # every reduction `% P` on the way from the positions parameter to the kernel
+    mods, seen, work = [], set(), [(call.args[0], at)]
+    while work:
+        e, node = work.pop()
+        for n in ast.walk(e):
+            if isinstance(n, ast.BinOp) and isinstance(n.op, ast.Mod):
+                mods.append((n, node))
+            if isinstance(n, ast.Call) and (last_attr(n) or call_name(n) or "") in ("mod", "remainder", "fmod") and len(n.args) == 2:
+                mods.append((ast.BinOp(left=n.args[0], op=ast.Mod(), right=n.args[1]), node))
+            if isinstance(n, ast.Name) and (n.id, node) not in seen:
+                seen.add((n.id, node))
+                for d in df.reaching(node, n.id):
+                    if d.kind == "assign" and d.value is not None:
+                        work.append((d.value, d.node))
+    n_inst = 0
+    for m, node in mods:
+        per = m.right
+        for _ in range(6):
+            if isinstance(per, ast.Name):
+                d = df.single_def(node, per.id)
+                if d is None or d.kind != "assign" or d.value is None:
+                    break
+                per, node = d.value, d.node
+                continue
+            break
+        got = _shape_axes(per)
+        if got is None:
+            raise AnalysisError(f"{f.qualname}: the shift is reduced modulo `{norm_text(m.right)[:40]}`, which is not a "
+                                "trailing slice of a shape")
+        n_inst += 1
+        ctx.check(got == want, "R-SHIFTPERIOD", f"{f.qualname}:period of the shift", f.loc(call),
+                  f"the shift is reduced modulo {got[0]}.shape over axes {got[1]}, the axes the kernel is built for",
+                  f"the shift is reduced modulo the lengths of axes {got[1]} of {got[0]} but the kernel is built for axes "
+                  f"{want[1]} of {want[0]}: component k of the shift is wrapped with the length of another axis, so for a "
+                  "non-square array a whole-pixel shift is no longer the periodic roll and shifts do not compose",
+                  key_detail="period")
+    if not n_inst:
+        ctx.ok("R-SHIFTPERIOD", f"{f.qualname}:period of the shift", f.loc(call),
+               "the positions reach the kernel without a reduction modulo the array size")
+    return max(n_inst, 1)
+
+
+def run(ctx) -> None:  # noqa: F811
+    ctx.rule("R-SHIFTPERIOD", "fft_shift: if the shift vector is reduced modulo the array size on its way to "
+             "fft_shift_kernel (found through reaching definitions), the period vector selects the same trailing axes, "
+             "in the same order, as the shape the kernel is built for (constant slices of `.shape` are evaluated on a "
+             "symbolic axis list): component k of the shift belongs to axis k")
+    pending = None
+    try:
+        _shift_periods(ctx, ctx.repo)
+    except AnalysisError as e:
+        pending = e
+    _inner_run_c15_r8(ctx)
+    if pending is not None:
+        raise pending
